@@ -155,50 +155,55 @@ pub fn j_next(dir: usize, days: i64, tod: i128, ts: TimeScale, target: usize, le
     }
 }
 
-/// next_weekday_at_midnight / _at_noon, previous_weekday_at_midnight / _at_noon (after the reference epoch)
+/// next_weekday_at_midnight / _at_noon, previous_weekday_at_midnight / _at_noon: the statement does not spell these
+/// variants out, but their result must still "fall on the requested weekday" (strictly later / earlier, at most a week
+/// and a day away) at midnight / noon of the epoch's own time scale. Where the TAI date and the own-scale date of the
+/// epoch agree the result is pinned exactly: the own-scale date of next()/previous(), at 00:00:00 / 12:00:00.
 pub fn j_at(variant: usize, days: i64, tod: i128, ts: TimeScale, target: usize, leap: &LeapTable, out: &mut Local) {
     let c = own_count(days, tod, ts);
     let args = vec![variant.to_string(), days.to_string(), enc(tod), scale_name(ts).to_string(), target.to_string()];
-    if c < 0 || scales::gregorian_zero(ts).1 != 0 {
-        // the statement does not describe these variants; judged only where "the day" of the count is its civil day
-        // (non-negative counts of scales whose zero is a midnight)
-        out.dc(0);
-        return;
-    }
     let (lo, hi) = tai_bounds(c, ts, leap);
-    if lo.div_euclid(NS_DAY) != days as i128 || hi.div_euclid(NS_DAY) != days as i128 {
-        out.dc(0);
-        return;
-    }
+    let window = lo.div_euclid(NS_DAY) != days as i128 || hi.div_euclid(NS_DAY) != days as i128;
     let e = Epoch::from_duration(mk(c), ts);
     let dir = variant / 2;
+    let snap = if variant % 2 == 0 { 0 } else { 12 * 3600 * NS_S };
     let cur = days.rem_euclid(7);
     let k = if dir == 0 { (target as i64 - cur).rem_euclid(7) } else { (cur - target as i64).rem_euclid(7) };
     let k = if k == 0 { 7 } else { k };
     let day = if dir == 0 { days + k } else { days - k };
-    if day < 0 {
-        out.dc(0);
-        return;
-    }
-    if own_count(day, 0, ts) < 0 {
-        out.dc(0);
-        return;
-    }
-    let want = own_count(day, if variant % 2 == 0 { 0 } else { 12 * 3600 * NS_S }, ts);
+    let want = own_count(day, snap, ts);
     let r = guard(|| match variant {
         0 => e.next_weekday_at_midnight(WD[target]),
         1 => e.next_weekday_at_noon(WD[target]),
         2 => e.previous_weekday_at_midnight(WD[target]),
         _ => e.previous_weekday_at_noon(WD[target]),
     });
+    let cls = format!("{},{}", if c < 0 { "before-reference" } else { "after-reference" }, if window { "tai-and-own-date-differ" } else { "same-date" });
     match r {
         Ok(g) if g.time_scale == ts && alpha(g.duration) == want => {
-            out.ok(1, true, variant as u64 * 8 + k as u64);
+            out.ok(1, true, variant as u64 * 8 + k as u64 + 64 * (c < 0) as u64 + 128 * window as u64);
             if out.want_sample(true) {
                 out.sample("c16.at", args, describe(want), true);
             }
         }
-        Ok(g) => out.viol("c16.at", format!("wrong,variant{variant},diff={}", diffclass(alpha(g.duration), want)), args, describe(want), describe(alpha(g.duration))),
+        Ok(g) if window && g.time_scale == ts => {
+            // the two dates of the epoch differ: any result that is a midnight/noon of the own scale on the requested
+            // weekday (read in the own scale or in TAI), on the right side of the epoch and within 8 days, is accepted
+            let gc = alpha(g.duration);
+            let (zd, zt) = scales::gregorian_zero(ts);
+            let civil = gc + zd as i128 * NS_DAY + zt;
+            let own_day = civil.div_euclid(NS_DAY);
+            let (glo, ghi) = tai_bounds(gc, ts, leap);
+            let snapped = civil.rem_euclid(NS_DAY) == snap;
+            let on_day = own_day.rem_euclid(7) == target as i128 || (glo.div_euclid(NS_DAY).rem_euclid(7) == target as i128 && ghi.div_euclid(NS_DAY).rem_euclid(7) == target as i128);
+            let side = if dir == 0 { gc > c - NS_DAY && gc <= c + 8 * NS_DAY } else { gc < c + NS_DAY && gc >= c - 8 * NS_DAY };
+            if snapped && on_day && side {
+                out.ok(1, true, 700 + variant as u64);
+            } else {
+                out.viol("c16.at", format!("wrong,variant{variant},{cls},{}", if !snapped { "not-midnight-or-noon" } else if !on_day { "not-on-the-requested-weekday-in-either-reading" } else { "wrong-side-or-too-far" }), args, describe(want), describe(gc));
+            }
+        }
+        Ok(g) => out.viol("c16.at", format!("wrong,variant{variant},{cls},diff={}", diffclass(alpha(g.duration), want)), args, describe(want), format!("{} {}", scale_name(g.time_scale), describe(alpha(g.duration)))),
         Err(p) => out.viol("c16.at", format!("panic:{}", p.class()), args, "no panic".into(), format!("{} {}", p.loc, p.msg)),
     }
 }
